@@ -57,7 +57,7 @@ var Check = &vrt.Check{
 // ---------------------------------------------------------------------------------------------
 // scenarios
 
-var opNames = []string{"ProcessInbound-new", "ProcessInbound-dup", "ProcessInbound-replace", "AddOut-new", "AddOut-replace", "SetSent", "SetUnread-true", "SetUnread-false", "ProcessInbound-longmid"}
+var opNames = []string{"ProcessInbound-new", "ProcessInbound-dup", "ProcessInbound-replace", "AddOut-new", "AddOut-replace", "SetSent", "SetUnread-true", "SetUnread-false", "ProcessInbound-longmid", "ProcessInbound-globmid"}
 
 var sizes = map[string][2]int{"small": {30, 0}, "medium": {900, 0}, "large": {3000, 1500}}
 var sizeNames = []string{"small", "medium", "large"}
@@ -72,6 +72,11 @@ var longMID = strings.Repeat("L", 244)
 func (sc scenario) mid() string {
 	if strings.HasSuffix(sc.Op, "-longmid") {
 		return longMID
+	}
+	if strings.HasSuffix(sc.Op, "-globmid") {
+		// a legal identifier made of pattern characters that, read as a file-name pattern, names the first
+		// bystander message of the inbox
+		return "BYIN0000000?"
 	}
 	return targetMID
 }
